@@ -31,6 +31,8 @@ AskReqs ==
   {RCreateAsk(Owner(i, "ask"), Coins1(b, s), i, b, q, P(1), s)
      : i \in AskIds, b \in (IF Tier = "quick" THEN {"base"} ELSE {"base", "cv1"}), q \in {"q1", "q2"}, s \in Sz}
   \cup {RCreateAsk("seller1", Coins1("cv1", 2), "a1", "cv1", "q1", P(1), 2)}
+  \* another account tries an id that may already be on the book (it must never overwrite the order there)
+  \cup {RCreateAsk("seller2", Coins1("base", 2), i, "base", "q1", P(2), 2) : i \in AskIds}
 BidReqs(S) ==
   {RCreateBid(Owner(i, "bid"), Coins1(q, Tot(p, s) + FeeAmt(BidFeeFor(S.cfg, q, Tot(p, s)))), i, "base",
               BidFeeFor(S.cfg, q, Tot(p, s)), p, q, Tot(p, s), s)
